@@ -14,7 +14,7 @@ RULE = ('one case = one scripted peer audited under 7 option sets (colour, -n, -
         '(refused, silent, closed after banner, garbage, truncated KEXINIT, wrong first packet, bad block size), and policy audits (-P) of passing and failing peers.  Oracle: status == 3/2/0 by the '
         'worst finding level visible in the report (algorithm notes by tag, general/security lines by colour); broken handshakes: status not in {0,2,3} and no algorithm lines/lists; policy: status 0 <=> passed, 3 <=> failed.  '
         'A case is non-trivial when at least one option set produced a report/verdict that was compared with the status; distinct = distinct peer specifications')
-REQUIRED = {'banners_with_two_findings': 2, 'gss_only_failure': 4, 'empty_entry_before_failure': 4, 'broken_after_rated_banner': 9, 'builtin_policy_runs': 10, 'outdated_builtin_policy_runs': 4, 'status_checks': 200, 'expect3': 10, 'expect2': 5, 'expect0': 3, 'broken_handshakes': 10, 'policy_runs': 10}
+REQUIRED = {'single_failure_by_entry_shape': 6, 'banners_with_two_findings': 2, 'gss_only_failure': 4, 'empty_entry_before_failure': 4, 'broken_after_rated_banner': 9, 'builtin_policy_runs': 10, 'outdated_builtin_policy_runs': 4, 'status_checks': 200, 'expect3': 10, 'expect2': 5, 'expect0': 3, 'broken_handshakes': 10, 'policy_runs': 10}
 ASSUMPTIONS = ['findings are algorithm notes plus failure/warning coloured lines of the general and security sections; (nfo), (rec) and (fin) lines are presentation, not findings',
                'levels of untagged (gen)/(sec) lines are only observable in colour renderings; the expected status of all option sets of a peer is derived from its colour rendering']
 MANIFEST = {
@@ -50,6 +50,9 @@ def cases(tier, seed):
         cs.append({'kind': 'mix', 'seed': rng.randrange(1 << 30), 'mix': {c_: [['clean'], ['warn', 'clean'], ['clean'], ['warn']][i % 4] for c_ in ('kex', 'key', 'enc', 'mac')}, 'unknown': False, 'probes': i % 2 == 0, 'dup': True})
     for i, cat in enumerate(('enc', 'mac', 'kex', 'key') * (1 if tier == 'quick' else 6)):
         cs.append({'kind': 'mix', 'seed': rng.randrange(1 << 30), 'mix': {c_: ['clean'] if i % 2 else ['warn', 'clean'] for c_ in ('kex', 'key', 'enc', 'mac')}, 'unknown': False, 'probes': False, 'empty_before_fail': cat})
+    # the only failure-rated name of the peer is one whose table entry has a given shape (number of slots, with / without a version history): whatever the shape, every rendering shows the failure the status reports
+    for cat, shape in fail_shapes():
+        cs.append({'kind': 'mix', 'seed': rng.randrange(1 << 30), 'mix': {c_: ['clean'] for c_ in ('kex', 'key', 'enc', 'mac')}, 'unknown': False, 'probes': False, 'fail_shape': [cat, list(shape)]})
     for i, (cm, am) in enumerate([(0x48, 0x0c), (0x08, 0x04), (0x49, 0x0c), (0x48, 0x0e), (0x7f, 0x7e)]):
         cs.append({'kind': 'ssh1', 'cmask': cm, 'amask': am})
     for i in range(3 if tier == 'quick' else 12):
@@ -148,11 +151,30 @@ def check_optsets(script, viol, counters, client=False, tag=''):
                 unknown_only = all('unknown algorithm' in t for (_c, _n, lvl, t) in report.json_findings(doc) if lvl == 'fail') if r.status == 2 else False
                 viol.append(_v('C02/json-shows-worse-than-status:%s%s' % ('unknown-name' if unknown_only else 'other', tag), 'the JSON report contains a finding of a level the exit status does not reflect',
                                status=r.status, json_levels=sorted(jl)))
+            # ... nor a milder one, where the algorithm findings alone account for the status (banner-level findings are not part of the JSON algorithm notes)
+            counters['json_level_checks'] = counters.get('json_level_checks', 0) + 1
+            if script.get('proto') != 1 and r.status in (2, 3) and want_status(lv) == r.status == expected and want_status(jl) < r.status:   # (the JSON document of an SSH-1 audit lists cipher names without notes)
+                viol.append(_v('C02/status-worse-than-json-shows:got%s-json%s%s' % (r.status, want_status(jl), tag), 'the exit status reports a level of which the JSON report of the same audit shows no finding (the text report does)',
+                               status=r.status, json_levels=sorted(jl), text_levels=sorted(lv)))
         elif name in ('plain', 'batch', 'verbose', 'lwarn', 'lfail'):
             l2, _e, _r = text_levels(r.out, verbose=(name == 'verbose'))
             if want_status(l2) > r.status and r.status in (0, 2, 3):
                 viol.append(_v('C02/report-shows-worse-than-status:%s%s' % (name, tag), 'the report shows a finding of a level the exit status does not reflect', status=r.status, levels=sorted(l2)))
     return runs
+
+
+def fail_shapes():
+    out = []
+    for cat in ('kex', 'key', 'enc', 'mac'):
+        seen = []
+        for n in audit.db_names()[cat]:
+            e = audit.db_entry(cat, n)
+            if gen.classify_db(cat, n) == 'fail' and not n.startswith('gss-') and not (cat in ('enc', 'mac') and gen.is_terrapin_shape(n)):
+                sh = (len(e), bool(e[0]), bool(len(e) > 2 and e[2]))
+                if sh not in seen:
+                    seen.append(sh)
+                    out.append((cat, sh))
+    return out
 
 
 def run_mix(c):
@@ -177,6 +199,11 @@ def run_mix(c):
         # the only failure of the peer is a GSS key exchange (looked up through its wildcard entry), with '/' and '+' in the mechanism suffix
         fams = [x for x in audit.db_names()['kex'] if x.startswith('gss-') and x.endswith('-*') and gen.classify_db('kex', x) == 'fail']
         lists['kex'] = [x for x in lists['kex'] if x not in cls['kex']['fail']] + [audit.gss_instance(rng, rng.choice(fams), forced=c['gss_fail'])]
+    if c.get('fail_shape'):
+        cat, sh = c['fail_shape'][0], tuple(c['fail_shape'][1])
+        pool = [n for n in audit.db_names()[cat] if gen.classify_db(cat, n) == 'fail' and not n.startswith('gss-') and not (cat in ('enc', 'mac') and gen.is_terrapin_shape(n))
+                and (len(audit.db_entry(cat, n)), bool(audit.db_entry(cat, n)[0]), bool(len(audit.db_entry(cat, n)) > 2 and audit.db_entry(cat, n)[2])) == sh]
+        lists[cat] = lists[cat] + [rng.choice(pool)]
     if c.get('dup'):
         # the same names listed twice
         for cat in lists:
@@ -203,6 +230,8 @@ def run_mix(c):
             lists[cat] = lists[cat] + lists[cat][:2]
     if c.get('empty_before_fail'):
         counters['empty_entry_before_failure'] = 1
+    if c.get('fail_shape'):
+        counters['single_failure_by_entry_shape'] = 1
     if c.get('gss_fail'):
         counters['gss_only_failure'] = 1
     check_optsets(script, viol, counters)
